@@ -11,7 +11,6 @@ package inmem
 // clock value the call ends with), which is what "an expired record is
 // indistinguishable from a deleted one" means (C06).
 
-//@ monitor service lock guards recs verChange
 
 //@ pred expiredAt(r kvs.Record, t time.Time) = r.ExpiresAt != nil && before(*r.ExpiresAt, t)
 //@ pred (s *service) wf() = s != nil && s.recs != nil && s.verChange != nil &&
@@ -19,6 +18,9 @@ package inmem
 //@      forall(k, string, has(s.verChange, k) ==> s.verChange[k] != nil && s.verChange[k].done != nil && !closed(s.verChange[k].done)) &&
 //@      forall(k, string, forall(j, string, has(s.verChange, k) && has(s.verChange, j) && k != j ==> s.verChange[k].done != s.verChange[j].done))
 // key k was live (present, not expired) in the pre-state, judged at the final clock value
+// all state of the store is guarded by s.lock; between critical sections other goroutines may change it arbitrarily within wf()
+//@ monitor s service lock guards recs verChange waiter.waiters waiter.done invariant s.wf()
+
 //@ pred (s *service) wasLive(k string) = old(has(s.recs, k)) && !expiredAt(old(s.recs[k]), clock)
 // every key other than k is untouched
 //@ pred (s *service) othersKept(k string) = forall(j, string, j != k ==> has(s.recs, j) == old(has(s.recs, j)) && (has(s.recs, j) ==> s.recs[j] == old(s.recs[j])))
